@@ -131,7 +131,9 @@ func (v *version) Clone() *version {
 	clone.nonce = make([]byte, len(v.nonce))
 	copy(clone.nonce, v.nonce)
 
-	// not copying metadata
+	// not copying metadata: the map must not be shared with the original either, or metadata set on the
+	// clone would also change the original, whose id may already be known
+	clone.metadata = nil
 
 	return &clone
 }
